@@ -15,6 +15,14 @@ def setup_impl_path():
     # the working tree is what gets imported.
     if core.REPO not in sys.path:
         sys.path.insert(0, core.REPO)
+    from . import ext
+
+    try:
+        how = ext.preload(core.REPO)
+        stale = ext.staleness(core.REPO)
+    except Exception as e:  # never let the extension logic stop a check
+        how, stale = "extension preload failed: %s" % e, None
+    return {"extension_build": how, "extension_source_differs_from_binary": stale}
 
 
 def build_for(prop_id, log):
@@ -92,7 +100,7 @@ def run_known_witnesses(ctx, mod):
 
 def main(argv):
     t0 = time.time()
-    setup_impl_path()
+    ext_info = setup_impl_path()
     if len(argv) >= 2 and argv[0] == "--replay":
         payload = json.load(open(argv[1] if os.path.isabs(argv[1]) else os.path.join(core.VERIF, argv[1])))
         prop_id = payload["property"]
@@ -120,6 +128,8 @@ def main(argv):
         degraded, rc, out = build_for(prop_id, log)
         audit = core.proof_audit(prop_id, rc, out, thorough=(tier == "thorough" and replay_payload is None))
         ctx.note("extraction_degraded", degraded)
+        for k_, v_ in (ext_info or {}).items():
+            ctx.note(k_, v_)
         ctx.note("build_s", log.get("build_s"))
         n = core.wire_selftest(ctx.model, ctx.rng)
         ctx.note("wire_selftest_values", n)
